@@ -291,7 +291,9 @@ static void ptg_dump_batches(void)
 {
     /* `#batch <cls> <k> : l0 l1 .. ; l0 l1 ..` = the k-th ring scheduled by the startup function of class cls, creation order */
     int k[64] = {0};
-    for (int i = 0; i < ptg_nbatches; i++) {
+    /* a runaway startup function (hang path) may still be appending: dump under the lock, and not more than 4000 rings */
+    pthread_mutex_lock(&ptg_batch_lock);
+    for (int i = 0; i < ptg_nbatches && i < 4000; i++) {
         ptg_batch_t *b = &ptg_batches[i];
         fprintf(ptg_out, "#batch %d %d :", b->cls, (b->cls >= 0 && b->cls < 64) ? k[b->cls]++ : -1);
         for (int j = 0; j < b->n; j++) {
@@ -300,6 +302,7 @@ static void ptg_dump_batches(void)
         }
         fprintf(ptg_out, "\n");
     }
+    pthread_mutex_unlock(&ptg_batch_lock);
 }
 
 static void ptg_dump_events(int64_t cap)
